@@ -71,7 +71,7 @@ def apply_edits(repo: str, edits: list[Edit]) -> list[str]:
     """Apply edits to the tree under `repo` (a scratch copy).  Returns descriptions."""
     done = []
     for e in edits:
-        prog = Program(repo)
+        prog = Program(repo, normalise=False)  # edits address the source as written
         if e.where.startswith("mod:"):
             mod = prog.module(e.where[4:])
             nodes = list(ast.walk(mod.tree))
